@@ -70,3 +70,12 @@ def chord(endpoint, direction, shells, radius):
             jumps.append((t0, abs(rho0)))       # entering the Earth from outside / starting exactly on the surface
         prev_rho_end = rho1
     return t_exit, 100.0 * total, jumps, (prev_rho_end or 0.0)
+
+
+def slant_tolerance(dist, step, rho_exit, jumps, exact, rho_max):
+    """First-order discretisation bound of the trapezoid integrator with sample spacing h (see DESIGN C15)."""
+    nst = int(dist / step) + (1 if dist % step else 0)
+    if nst <= 1:
+        return 110.0 * step * rho_max
+    h = dist / (nst - 1)
+    return 110.0 * h * (rho_exit / 2 + sum(j for _, j in jumps)) + 100.0 * h * h * 2e-6 * (dist / h) * 0.1 + 1e-6 * exact
